@@ -68,6 +68,17 @@ Proof.
 Qed.
 Print Assumptions C15_roundtrip_b.
 
+(* sub-property 1 for the written url: every canonical key *)
+Theorem C15_roundtrip_written_b K D ext :
+  canonicalb K = true -> canonical_dirb D = true -> ext = MD \/ ext = "" ->
+  from_rel_link_url (ref_url (to_rel_link_url K D) ext) D = K.
+Proof.
+  intros HK HD He.
+  apply canonicalb_spec in HK as (ks & Hks & ->). apply canonical_dirb_spec in HD as (ds & Hds & ->).
+  now apply roundtrip_written.
+Qed.
+Print Assumptions C15_roundtrip_written_b.
+
 (* sub-property 2 on dom2 (the domain predicate is not even needed: C15_rewrite holds for all
    texts) *)
 Theorem C15_rewrite_b u D :
@@ -85,6 +96,14 @@ Proof.
   intros HK Hmd. apply canonicalb_spec in HK as (ks & Hks & ->). now apply C15_own_dir.
 Qed.
 Print Assumptions C15_own_dir_b.
+
+Theorem C15_own_dir_written_b K ext :
+  canonicalb K = true -> ext = MD \/ ext = "" ->
+  from_rel_link_url (ref_url (to_rel_link_url K (key_parent K)) ext) (key_parent K) = K.
+Proof.
+  intros HK He. apply canonicalb_spec in HK as (ks & Hks & ->). now apply C15_own_dir_written.
+Qed.
+Print Assumptions C15_own_dir_written_b.
 
 (* and the parent of a canonical key is a canonical directory *)
 Theorem C15_parent_b K : canonicalb K = true -> canonical_dirb (key_parent K) = true.
